@@ -8,6 +8,7 @@ open Hidi
 
 structure St where
   dev : DevSt := {}
+  parse : ParseSt := {}
 
 /-- note-name engine (C11) -/
 def noteLine (toks : List String) : Option String :=
@@ -30,6 +31,9 @@ def St.line (s : St) (line : String) : St × Option String :=
   | t :: _ =>
     if t.startsWith "#" then (s, none)
     else if t = "s2n" ∨ t = "n2s" then (s, noteLine toks)
+    else if t.startsWith "t." ∨ t = "hidi" then
+      let (p, o) := s.parse.line toks
+      ({ s with parse := p }, o)
     else
       let (d, o) := s.dev.line toks
       ({ s with dev := d }, o)
